@@ -63,7 +63,14 @@ def random_op(rng, spec):
     k = rng.choice(['r', 'r', 'r', 'r', 'ft', 'fs', 'fr', 'fi', 'u', 'c', 'w', 's', 's', 'e'])
     tpt = lambda: rng.choice(ts) + rng.choice([-9, -8, -1, 0, 0, 1, 4, 8, 16])
     if k == 'ft':
-        return ['ft', rng.sample(types, rng.randint(1, min(3, len(types)))) if rng.random() < 0.9 else [K.UNK2 + 5]]
+        u = rng.random()
+        if u < 0.5:
+            return ['ft', rng.sample(types, rng.randint(1, min(3, len(types)))) if rng.random() < 0.9 else [K.UNK2 + 5]]
+        if u < 0.65 and all(t in K.CLASS_TYPES for t in types):
+            return ['ft', rng.sample(types, rng.randint(1, len(types))), 'classes']
+        # many requested types, most of them absent and spread over the 16-bit range, in every container form
+        ts, form = K.type_requests(rng, types, sizes=[rng.choice([2, 5, 9, 13, 14, 15, 16, 18, 22, 27, 33])])[0]
+        return ['ft', ts, form if form != 'mixed' else 'list']
     if k == 'fs':
         a, b = rng.choice([None, tpt()]), rng.choice([None, tpt()])
         if a is None and b is None:
@@ -299,7 +306,8 @@ def run(ctx):
             cases.append({'log': spec, 'flags': FLAGS, 'max_bytes': None, 'srcs': None, 'ops': ops + drain(spec), 'origin': 'seek-family', 'nops': len(ops)})
     # random scripts of up to 30 operations on random logs (some with a source filter / byte limit)
     for i in range(1500 if ctx.thorough else 400):
-        spec = rng.choice(BASE_LOGS) if rng.random() < 0.3 else K.random_log(rng, nmax=rng.choice([5, 9, 14]), junk_prob=0.2)
+        u = rng.random()
+        spec = rng.choice(BASE_LOGS) if u < 0.3 else K.rich_log(rng, rng.choice([15, 22, 30])) if u < 0.5 else K.random_log(rng, nmax=rng.choice([5, 9, 14]), junk_prob=0.2)
         ops = [random_op(rng, spec) for _ in range(rng.randint(1, 30))]
         ms = [it for it in spec if it[0] == 'm']
         srcs = None
